@@ -43,6 +43,8 @@ func profile() gen.Profile {
 		return gen.Security()
 	case "views":
 		return gen.Views()
+	case "routes":
+		return gen.Routes()
 	case "errors":
 		return gen.Errors()
 	}
